@@ -69,6 +69,15 @@ def _case(draw, tier):
         return draw(_siblings_case())
     topo = draw(gen.g1_nodes(3, 8 if tier == "quick" else 10, p_const=0.15))  # incl. outputs whose value is None / falsy
     prod = ref.producers(topo)
+    if prob(draw, 0.25):
+        # an input that happens to be called like an option of run() (legal: inputs are passed in a dict)
+        pure0 = sorted({p for n in topo for p in n["params"] if p not in prod})
+        if pure0:
+            old = draw(st.sampled_from(pure0))
+            new = draw(st.sampled_from(["max_iterations", "select", "on_missing", "entrypoint", "values", "error_handling", "event_processors", "graph"]))
+            for n in topo:
+                n["params"] = [new if q == old else q for q in n["params"]]
+                n["defaults"] = {(new if q == old else q): v for q, v in n.get("defaults", {}).items()}
     inputs = []
     for n in topo:
         for p in n["params"]:
@@ -102,7 +111,10 @@ def _case(draw, tier):
         if p not in values and prob(draw, 0.35):
             values[p] = ["in", p, 1]
     return {"flat": draw(gen.permuted(topo)), "nested": draw(gen.permuted(outer)), "flat_bind": flat_bind, "outer_bind": outer_bind,
-            "values": values, "hidden": hidden, "depth": depth, "inactive": inactive}
+            "values": values, "hidden": hidden, "depth": depth, "inactive": inactive,
+            # a graph-level selection applied to the flat and to the nested graph alike (a selection does not stop other nodes from
+            # running when their inputs happen to be there - the nested graph included)
+            "outer_select": draw(st.lists(st.integers(0, 11), min_size=1, max_size=2)) if prob(draw, 0.4) else None}
 
 
 def _mark_inner(wrapper, marks):
@@ -224,6 +236,26 @@ def check_case(case, ev):
             elif not calls or calls[-1] != want:
                 raise Violation("c05.inner_args", f"[{runner}] node {n['name']} last args {J(calls[-1] if calls else None)} expected {J(want)}")
 
+    # --- the same graph-level selection on both forms
+    if case.get("outer_select") and exposed:
+        names = sorted(exposed)
+        S_ = list(dict.fromkeys(names[i % len(names)] for i in case["outer_select"]))
+        try:
+            gfs, gns = gf.select(*S_), gn.select(*S_)
+        except Exception as e:  # noqa: BLE001
+            raise Violation("c05.select_rejected", f"select({S_}) rejected: {type(e).__name__}: {str(e)[:200]}") from None
+        # (the wrapper is ONE unit of scoping: selecting one of its outputs keeps all of it in scope, so the nested form may need
+        # more inputs than the flat one - by design; what is compared is what the two forms return)
+        if not case["inactive"]:
+            for runner in ("sync", "async"):
+                run = run_sync if runner == "sync" else run_async
+                of = run(gfs, {k: v for k, v in values.items() if k in set(gfs.inputs.all)})
+                # (a binding made inside a wrapper that the selection puts out of scope does not serve outside nodes: the caller
+                # supplies that value then)
+                on = run(gns, {**{k: fbind[k] for k in gns.inputs.required if k in fbind}, **{k: v for k, v in values.items() if k in set(gns.inputs.all)}})
+                if of.status != on.status or of.values != on.values:
+                    raise Violation("c05.values", f"[{runner}, both forms under select({S_})] nested={on.brief()} flat={of.brief()}", selected=True)
+            labels.add("graph_level_select_on_both_forms")
     # --- non-triviality: what the cut crosses
     S = {n["name"] for n in _all_func_nodes([wrapper])}
     prod = ref.producers(flat_nodes)
